@@ -5,6 +5,7 @@
  "enforce": ["http_findheader"],
  "replace": [],
  "annotate": ["http/http.c"],
+ "specs": {"http/http.c": "contracts/http__http.c.findheader.spec"},
  "defines": ["VERIF_HALLOC", "HTTP_N=16", "VERIF_STRMAX=8", "FH_MAXH=3", "FH_MAXS=5", "FH_EXACT", "VERIF_NO_DIRTY"],
  "thorough_defines": ["FH_MAXH=5", "FH_MAXS=12", "VERIF_STRMAX=16"],
  "models": ["models/libc_string.c", "models/http_env.c"],
